@@ -65,6 +65,8 @@ enum Op {
     PentagonVertices(u64, u32, u8, u32),
     ShapeOps(u64, u64),
     VectorOps(u64, u64, u64),
+    ChildrenTo(u64, i32),
+    UncompactTo(u64, i32),
 }
 
 fn orient(o: u8) -> Orientation {
@@ -82,7 +84,18 @@ fn f(b: u64) -> f64 {
     f64::from_bits(b)
 }
 
+/// Panics of the library are outcomes (compared like any other result), not failures of the run.
 fn exec(op: &Op) -> Result<Vec<u64>, String> {
+    match std::panic::catch_unwind(|| exec_inner(op)) {
+        Ok(r) => r,
+        Err(p) => {
+            let msg = p.downcast_ref::<&str>().map(|s| s.to_string()).or_else(|| p.downcast_ref::<String>().cloned()).unwrap_or_default();
+            Err(format!("panic: {}", msg))
+        }
+    }
+}
+
+fn exec_inner(op: &Op) -> Result<Vec<u64>, String> {
     Ok(match op {
         Op::Origins => {
             let mut v = Vec::new();
@@ -218,6 +231,8 @@ fn exec(op: &Op) -> Result<Vec<u64>, String> {
             let s1 = vu::slerp(ca, cb, f(*t));
             vec![s1.x().to_bits(), s1.y().to_bits(), s1.z().to_bits(), vu::vector_difference(ca, cb).to_bits(), vu::triple_product(ca, cb, s1).to_bits()]
         }
+        Op::ChildrenTo(c, d) => a5::cell_to_children(*c, Some(a5::get_resolution(*c) + *d))?,
+        Op::UncompactTo(c, d) => a5::uncompact(&[*c, *c], a5::get_resolution(*c) + *d)?,
         Op::TlForward(t, p, o) => {
             let sp = Spherical::new(Radians::new_unchecked(f(*t)), Radians::new_unchecked(f(*p)));
             let r = DodecahedronProjection::get_thread_local().forward(sp, *o)?;
@@ -276,6 +291,33 @@ fn contention_plans(r: &mut R) -> Vec<Vec<Op>> {
     plans
 }
 
+/// Sizes profile: one or two threads issue calls whose internal buffers have very different
+/// sizes, large before small and small before large (stale elements, set_len / truncate
+/// mistakes, out-of-bounds or uninitialised reads show up under the interpreter).
+fn sizes_plans(r: &mut R) -> Vec<Vec<Op>> {
+    let c = cell_at(r.next(), r.next(), 2 + r.below(3) as u32);
+    let mut plans = Vec::new();
+    for _ in 0..(1 + r.below(2)) {
+        let mut ops = Vec::new();
+        for _ in 0..(5 + r.below(4)) {
+            ops.push(match r.below(8) {
+                0 | 1 => Op::Boundary(c, [8, 1, 4, 2, 6, 3][r.below(6) as usize]),
+                2 => Op::ChildrenTo(c, [3, 1, 2, 0, 4][r.below(5) as usize]),
+                3 => Op::UncompactTo(c, [2, 0, 1, 3][r.below(4) as usize]),
+                4 => {
+                    let res = [10u32, 3, 7, 1, 6][r.below(5) as usize];
+                    Op::SToAnchor(r.below(1u64 << (2 * res)), res, r.below(6) as u8)
+                }
+                5 => Op::IjToS((r.unit() * 2.0).to_bits(), (r.unit() * 2.0).to_bits(), [9, 2, 5, 1][r.below(4) as usize], r.below(6) as u8),
+                6 => Op::Compact(res0_cell(r.next()), r.below(4)),
+                _ => Op::Lookup((r.unit() * 360.0 - 180.0).to_bits(), (r.unit() * 170.0 - 85.0).to_bits(), [4, 2, 3, 2][r.below(4) as usize]),
+            });
+        }
+        plans.push(ops);
+    }
+    plans
+}
+
 fn any_op(r: &mut R, allow_tl: bool) -> Op {
     if r.below(3) == 0 {
         // the rest of the public surface, all cheap under the interpreter
@@ -311,6 +353,7 @@ fn any_op(r: &mut R, allow_tl: bool) -> Op {
 }
 
 fn main() {
+    std::panic::set_hook(Box::new(|_| {}));
     let args: Vec<String> = std::env::args().collect();
     let seed: u64 = args.get(1).and_then(|s| s.parse().ok()).unwrap_or(0);
     let mut threads_mask: u64 = u64::MAX;
@@ -346,7 +389,8 @@ fn main() {
     }
     let mut r = R(seed ^ 0x6d697269);
     let contention = seed % 3 == 2;
-    let n_threads = if contention { 0 } else { 2 + r.below(3) as usize };
+    let sizes = !contention && seed % 5 == 3;
+    let n_threads = if contention || sizes { 0 } else { 2 + r.below(3) as usize };
     // at most two threads may use the per-thread projection (its cold start dominates the cost)
     let mut tl_budget = 2;
     let mut plans: Vec<Vec<Op>> = Vec::new();
@@ -362,6 +406,12 @@ fn main() {
         }
         ops.truncate(max_ops.max(1));
         plans.push(ops);
+    }
+    if sizes {
+        plans = sizes_plans(&mut r);
+        for p in plans.iter_mut() {
+            p.truncate(max_ops.max(1));
+        }
     }
     if contention {
         plans = contention_plans(&mut r);
